@@ -10,49 +10,50 @@ use vh_lite::{read_cases, drive, drive_group, quiet_panics, Out};
 
 mod tc_left__ser;
 mod tc_left__src0;
-mod tc_left__perm1;
-mod tc_nonlin__par;
-mod tc_nonlin__str;
-mod mutual__run;
-mod mutual__init;
-mod mutual__u64;
-mod scc_chain__perm2;
-mod diamond__pari;
-mod repeated__perm2;
-mod three_dyn__pari;
-mod three_dyn__u64;
-mod conds__run;
-mod conds__init;
-mod expr_args__par;
-mod multi_head__par;
-mod facts__ser;
-mod facts__src2;
-mod facts__ren;
-mod opt_cols__run;
-mod opt_cols__init;
-mod same_gen__pari;
-mod same_gen__u64;
-mod not_reorderable__perm2;
-mod pre_join_rec__perm1;
-mod two_inputs__topar;
-mod two_inputs__redecl;
-mod two_inputs__str;
-mod ternary__pari;
-mod bound_mix__ser;
-mod bound_mix__u64;
-mod join_chain__permpar;
-mod reach__par;
-mod self_join3__par;
-mod lag_right__perm2;
-mod lag_left__pari;
-mod lag_mid__ser;
-mod lag_mid__u64;
-mod multi_head_rec__par;
-mod sp_dual__pari;
-mod sp_dual__src2;
-mod sp_dual__ren;
-mod longest_capped__par;
-mod set_reach__topar;
+mod tc_left__srcpar;
+mod tc_nonlin__ser;
+mod tc_nonlin__permpar;
+mod mutual__topar;
+mod mutual__srcred;
+mod mutual__permpar;
+mod scc_chain__topar;
+mod diamond__ser;
+mod repeated__pari;
+mod three_dyn__ser;
+mod three_dyn__permpar;
+mod conds__par;
+mod conds__srcto;
+mod conds__ren;
+mod count_up__to;
+mod multi_head__perm2;
+mod facts__gen;
+mod facts__runpar;
+mod facts__strpar;
+mod opt_cols__src1;
+mod cartesian__ser;
+mod same_gen__perm1;
+mod not_reorderable__par;
+mod pre_join_rec__ser;
+mod pre_join_rec__permpar;
+mod two_inputs__gen;
+mod two_inputs__runpar;
+mod two_inputs__strpar;
+mod ternary__perm2;
+mod bound_mix__pari;
+mod join_chain__ser;
+mod join_chain__u64;
+mod reach__to;
+mod lag_right__ser;
+mod lag_right__permpar;
+mod lag_left__topar;
+mod lag_mid__pari;
+mod lag_late_delta__ser;
+mod multi_head_rec__to;
+mod sp_dual__topar;
+mod sp_dual__srcred;
+mod sp_dual__permpar;
+mod longest_capped__pari;
+mod set_reach__run;
 mod set_reach__redecl;
 mod bset__topar;
 mod opt_lat__pari;
@@ -60,101 +61,104 @@ mod lat_two_keys__par;
 mod lat_pre_join__par;
 mod lat_val_bound__par;
 mod lat_input__mrt;
-mod lat_input__runpar;
-mod count_paths__mrt;
-mod count_paths__runpar;
-mod neg_basic__mrt;
-mod neg_basic__runpar;
-mod agg_minmaxsum__ser;
-mod agg_lattice__ser;
-mod neg_rec_after__ser;
-mod agg_empty__ser;
-mod agg_empty_rel__to;
-mod agg_pre_join__par;
-mod disj__mrt;
-mod disj__runpar;
-mod disj_nested__ser;
-mod pat_args__exp;
-mod multi_head_disj__par;
-mod neg_in_disj__exppar;
-mod mac_basic__gen;
-mod mac_basic__srcpar;
-mod mac_nested__ser;
-mod mac_gensym_disj__exp;
-mod stress_lat__par;
-mod rnd_core_02__ser;
-mod rnd_core_04__pari;
-mod rnd_core_07__par;
-mod rnd_core_10__ser;
-mod rnd_core_12__pari;
-mod rnd_core_15__par;
-mod rnd_core_18__ser;
-mod rnd_core_20__pari;
-mod rnd_core_23__par;
-mod rnd_core_26__ser;
-mod rnd_core_28__pari;
-mod rnd_agg_01__par;
-mod rnd_agg_04__ser;
-mod rnd_agg_06__pari;
-mod rnd_agg_09__par;
-mod rnd_agg_12__ser;
-mod rnd_agg_14__pari;
-mod rnd_prec_01__topar;
-mod rnd_prec_03__pari;
-mod rnd_prec_05__ser;
-mod rnd_prec_06__to;
-mod rnd_prec_08__par;
-mod rnd_prea_02__par;
-mod rnd_prea_05__ser;
-mod rnd_prea_07__pari;
+mod lat_input__init;
+mod count_paths__run;
+mod count_paths__redecl;
+mod neg_basic__topar;
+mod neg_basic__srcred;
+mod neg_basic__permpar;
+mod agg_depth__pari;
+mod agg_user__ser;
+mod agg_bound_mix__ser;
+mod agg_empty_rel__ser;
+mod agg_const_args__exp;
+mod disj__to;
+mod disj__srcto;
+mod disj__ren;
+mod disj_nested__exppar;
+mod rep_expr__pari;
+mod neg_in_disj__ser;
+mod mac_basic__to;
+mod mac_basic__srcto;
+mod mac_capture__ser;
+mod mac_nested__exp;
+mod mac_local_names__par;
+mod mac_block__exppar;
+mod stress_lat__pari;
+mod rnd_core_02__par;
+mod rnd_core_05__ser;
+mod rnd_core_07__pari;
+mod rnd_core_10__par;
+mod rnd_core_13__ser;
+mod rnd_core_15__pari;
+mod rnd_core_18__par;
+mod rnd_core_21__ser;
+mod rnd_core_23__pari;
+mod rnd_core_26__par;
+mod rnd_core_29__ser;
+mod rnd_agg_01__pari;
+mod rnd_agg_04__par;
+mod rnd_agg_07__ser;
+mod rnd_agg_09__pari;
+mod rnd_agg_12__par;
+mod rnd_agg_15__ser;
+mod rnd_prec_02__ser;
+mod rnd_prec_03__to;
+mod rnd_prec_05__par;
+mod rnd_prec_06__topar;
+mod rnd_prec_08__pari;
+mod rnd_prea_02__pari;
+mod rnd_prea_05__par;
+mod rnd_prea_08__ser;
 
 fn lookup(name: &str) -> fn() -> Box<dyn Driven> {
    match name {
       "tc_left__ser" => tc_left__ser::make,
       "tc_left__src0" => tc_left__src0::make,
-      "tc_left__perm1" => tc_left__perm1::make,
-      "tc_nonlin__par" => tc_nonlin__par::make,
-      "tc_nonlin__str" => tc_nonlin__str::make,
-      "mutual__run" => mutual__run::make,
-      "mutual__init" => mutual__init::make,
-      "mutual__u64" => mutual__u64::make,
-      "scc_chain__perm2" => scc_chain__perm2::make,
-      "diamond__pari" => diamond__pari::make,
-      "repeated__perm2" => repeated__perm2::make,
-      "three_dyn__pari" => three_dyn__pari::make,
-      "three_dyn__u64" => three_dyn__u64::make,
-      "conds__run" => conds__run::make,
-      "conds__init" => conds__init::make,
-      "expr_args__par" => expr_args__par::make,
-      "multi_head__par" => multi_head__par::make,
-      "facts__ser" => facts__ser::make,
-      "facts__src2" => facts__src2::make,
-      "facts__ren" => facts__ren::make,
-      "opt_cols__run" => opt_cols__run::make,
-      "opt_cols__init" => opt_cols__init::make,
-      "same_gen__pari" => same_gen__pari::make,
-      "same_gen__u64" => same_gen__u64::make,
-      "not_reorderable__perm2" => not_reorderable__perm2::make,
-      "pre_join_rec__perm1" => pre_join_rec__perm1::make,
-      "two_inputs__topar" => two_inputs__topar::make,
-      "two_inputs__redecl" => two_inputs__redecl::make,
-      "two_inputs__str" => two_inputs__str::make,
-      "ternary__pari" => ternary__pari::make,
-      "bound_mix__ser" => bound_mix__ser::make,
-      "bound_mix__u64" => bound_mix__u64::make,
-      "join_chain__permpar" => join_chain__permpar::make,
-      "reach__par" => reach__par::make,
-      "self_join3__par" => self_join3__par::make,
-      "lag_right__perm2" => lag_right__perm2::make,
-      "lag_left__pari" => lag_left__pari::make,
-      "lag_mid__ser" => lag_mid__ser::make,
-      "lag_mid__u64" => lag_mid__u64::make,
-      "multi_head_rec__par" => multi_head_rec__par::make,
-      "sp_dual__pari" => sp_dual__pari::make,
-      "sp_dual__src2" => sp_dual__src2::make,
-      "sp_dual__ren" => sp_dual__ren::make,
-      "longest_capped__par" => longest_capped__par::make,
-      "set_reach__topar" => set_reach__topar::make,
+      "tc_left__srcpar" => tc_left__srcpar::make,
+      "tc_nonlin__ser" => tc_nonlin__ser::make,
+      "tc_nonlin__permpar" => tc_nonlin__permpar::make,
+      "mutual__topar" => mutual__topar::make,
+      "mutual__srcred" => mutual__srcred::make,
+      "mutual__permpar" => mutual__permpar::make,
+      "scc_chain__topar" => scc_chain__topar::make,
+      "diamond__ser" => diamond__ser::make,
+      "repeated__pari" => repeated__pari::make,
+      "three_dyn__ser" => three_dyn__ser::make,
+      "three_dyn__permpar" => three_dyn__permpar::make,
+      "conds__par" => conds__par::make,
+      "conds__srcto" => conds__srcto::make,
+      "conds__ren" => conds__ren::make,
+      "count_up__to" => count_up__to::make,
+      "multi_head__perm2" => multi_head__perm2::make,
+      "facts__gen" => facts__gen::make,
+      "facts__runpar" => facts__runpar::make,
+      "facts__strpar" => facts__strpar::make,
+      "opt_cols__src1" => opt_cols__src1::make,
+      "cartesian__ser" => cartesian__ser::make,
+      "same_gen__perm1" => same_gen__perm1::make,
+      "not_reorderable__par" => not_reorderable__par::make,
+      "pre_join_rec__ser" => pre_join_rec__ser::make,
+      "pre_join_rec__permpar" => pre_join_rec__permpar::make,
+      "two_inputs__gen" => two_inputs__gen::make,
+      "two_inputs__runpar" => two_inputs__runpar::make,
+      "two_inputs__strpar" => two_inputs__strpar::make,
+      "ternary__perm2" => ternary__perm2::make,
+      "bound_mix__pari" => bound_mix__pari::make,
+      "join_chain__ser" => join_chain__ser::make,
+      "join_chain__u64" => join_chain__u64::make,
+      "reach__to" => reach__to::make,
+      "lag_right__ser" => lag_right__ser::make,
+      "lag_right__permpar" => lag_right__permpar::make,
+      "lag_left__topar" => lag_left__topar::make,
+      "lag_mid__pari" => lag_mid__pari::make,
+      "lag_late_delta__ser" => lag_late_delta__ser::make,
+      "multi_head_rec__to" => multi_head_rec__to::make,
+      "sp_dual__topar" => sp_dual__topar::make,
+      "sp_dual__srcred" => sp_dual__srcred::make,
+      "sp_dual__permpar" => sp_dual__permpar::make,
+      "longest_capped__pari" => longest_capped__pari::make,
+      "set_reach__run" => set_reach__run::make,
       "set_reach__redecl" => set_reach__redecl::make,
       "bset__topar" => bset__topar::make,
       "opt_lat__pari" => opt_lat__pari::make,
@@ -162,53 +166,55 @@ fn lookup(name: &str) -> fn() -> Box<dyn Driven> {
       "lat_pre_join__par" => lat_pre_join__par::make,
       "lat_val_bound__par" => lat_val_bound__par::make,
       "lat_input__mrt" => lat_input__mrt::make,
-      "lat_input__runpar" => lat_input__runpar::make,
-      "count_paths__mrt" => count_paths__mrt::make,
-      "count_paths__runpar" => count_paths__runpar::make,
-      "neg_basic__mrt" => neg_basic__mrt::make,
-      "neg_basic__runpar" => neg_basic__runpar::make,
-      "agg_minmaxsum__ser" => agg_minmaxsum__ser::make,
-      "agg_lattice__ser" => agg_lattice__ser::make,
-      "neg_rec_after__ser" => neg_rec_after__ser::make,
-      "agg_empty__ser" => agg_empty__ser::make,
-      "agg_empty_rel__to" => agg_empty_rel__to::make,
-      "agg_pre_join__par" => agg_pre_join__par::make,
-      "disj__mrt" => disj__mrt::make,
-      "disj__runpar" => disj__runpar::make,
-      "disj_nested__ser" => disj_nested__ser::make,
-      "pat_args__exp" => pat_args__exp::make,
-      "multi_head_disj__par" => multi_head_disj__par::make,
-      "neg_in_disj__exppar" => neg_in_disj__exppar::make,
-      "mac_basic__gen" => mac_basic__gen::make,
-      "mac_basic__srcpar" => mac_basic__srcpar::make,
-      "mac_nested__ser" => mac_nested__ser::make,
-      "mac_gensym_disj__exp" => mac_gensym_disj__exp::make,
-      "stress_lat__par" => stress_lat__par::make,
-      "rnd_core_02__ser" => rnd_core_02__ser::make,
-      "rnd_core_04__pari" => rnd_core_04__pari::make,
-      "rnd_core_07__par" => rnd_core_07__par::make,
-      "rnd_core_10__ser" => rnd_core_10__ser::make,
-      "rnd_core_12__pari" => rnd_core_12__pari::make,
-      "rnd_core_15__par" => rnd_core_15__par::make,
-      "rnd_core_18__ser" => rnd_core_18__ser::make,
-      "rnd_core_20__pari" => rnd_core_20__pari::make,
-      "rnd_core_23__par" => rnd_core_23__par::make,
-      "rnd_core_26__ser" => rnd_core_26__ser::make,
-      "rnd_core_28__pari" => rnd_core_28__pari::make,
-      "rnd_agg_01__par" => rnd_agg_01__par::make,
-      "rnd_agg_04__ser" => rnd_agg_04__ser::make,
-      "rnd_agg_06__pari" => rnd_agg_06__pari::make,
-      "rnd_agg_09__par" => rnd_agg_09__par::make,
-      "rnd_agg_12__ser" => rnd_agg_12__ser::make,
-      "rnd_agg_14__pari" => rnd_agg_14__pari::make,
-      "rnd_prec_01__topar" => rnd_prec_01__topar::make,
-      "rnd_prec_03__pari" => rnd_prec_03__pari::make,
-      "rnd_prec_05__ser" => rnd_prec_05__ser::make,
-      "rnd_prec_06__to" => rnd_prec_06__to::make,
-      "rnd_prec_08__par" => rnd_prec_08__par::make,
-      "rnd_prea_02__par" => rnd_prea_02__par::make,
-      "rnd_prea_05__ser" => rnd_prea_05__ser::make,
-      "rnd_prea_07__pari" => rnd_prea_07__pari::make,
+      "lat_input__init" => lat_input__init::make,
+      "count_paths__run" => count_paths__run::make,
+      "count_paths__redecl" => count_paths__redecl::make,
+      "neg_basic__topar" => neg_basic__topar::make,
+      "neg_basic__srcred" => neg_basic__srcred::make,
+      "neg_basic__permpar" => neg_basic__permpar::make,
+      "agg_depth__pari" => agg_depth__pari::make,
+      "agg_user__ser" => agg_user__ser::make,
+      "agg_bound_mix__ser" => agg_bound_mix__ser::make,
+      "agg_empty_rel__ser" => agg_empty_rel__ser::make,
+      "agg_const_args__exp" => agg_const_args__exp::make,
+      "disj__to" => disj__to::make,
+      "disj__srcto" => disj__srcto::make,
+      "disj__ren" => disj__ren::make,
+      "disj_nested__exppar" => disj_nested__exppar::make,
+      "rep_expr__pari" => rep_expr__pari::make,
+      "neg_in_disj__ser" => neg_in_disj__ser::make,
+      "mac_basic__to" => mac_basic__to::make,
+      "mac_basic__srcto" => mac_basic__srcto::make,
+      "mac_capture__ser" => mac_capture__ser::make,
+      "mac_nested__exp" => mac_nested__exp::make,
+      "mac_local_names__par" => mac_local_names__par::make,
+      "mac_block__exppar" => mac_block__exppar::make,
+      "stress_lat__pari" => stress_lat__pari::make,
+      "rnd_core_02__par" => rnd_core_02__par::make,
+      "rnd_core_05__ser" => rnd_core_05__ser::make,
+      "rnd_core_07__pari" => rnd_core_07__pari::make,
+      "rnd_core_10__par" => rnd_core_10__par::make,
+      "rnd_core_13__ser" => rnd_core_13__ser::make,
+      "rnd_core_15__pari" => rnd_core_15__pari::make,
+      "rnd_core_18__par" => rnd_core_18__par::make,
+      "rnd_core_21__ser" => rnd_core_21__ser::make,
+      "rnd_core_23__pari" => rnd_core_23__pari::make,
+      "rnd_core_26__par" => rnd_core_26__par::make,
+      "rnd_core_29__ser" => rnd_core_29__ser::make,
+      "rnd_agg_01__pari" => rnd_agg_01__pari::make,
+      "rnd_agg_04__par" => rnd_agg_04__par::make,
+      "rnd_agg_07__ser" => rnd_agg_07__ser::make,
+      "rnd_agg_09__pari" => rnd_agg_09__pari::make,
+      "rnd_agg_12__par" => rnd_agg_12__par::make,
+      "rnd_agg_15__ser" => rnd_agg_15__ser::make,
+      "rnd_prec_02__ser" => rnd_prec_02__ser::make,
+      "rnd_prec_03__to" => rnd_prec_03__to::make,
+      "rnd_prec_05__par" => rnd_prec_05__par::make,
+      "rnd_prec_06__topar" => rnd_prec_06__topar::make,
+      "rnd_prec_08__pari" => rnd_prec_08__pari::make,
+      "rnd_prea_02__pari" => rnd_prea_02__pari::make,
+      "rnd_prea_05__par" => rnd_prea_05__par::make,
+      "rnd_prea_08__ser" => rnd_prea_08__ser::make,
       _ => panic!("no such program variant in this shard: {}", name),
    }
 }
